@@ -301,11 +301,11 @@ pub fn property() -> Property {
             Sub::Custom(CustomSub { name: "repeats", run: repeats, replay: replay_repeat }),
             Sub::Custom(CustomSub { name: "enumerate", run: enumerate, replay: replay_enumerated }),
             Sub::Custom(CustomSub { name: "fuzz-syntax_diff", run: fuzz_run, replay: fuzz_replay }),
-            Sub::Bytes(BytesSub { name: "sentences", f: sentences, max_len: 1500, quick: Budget { threads: 8, cases: 2500 }, thorough: Budget { threads: 16, cases: 80_000 }, keep_unreproducible: false }),
-            Sub::Bytes(BytesSub { name: "mutants", f: mutants, max_len: 1200, quick: Budget { threads: 8, cases: 6000 }, thorough: Budget { threads: 16, cases: 300_000 }, keep_unreproducible: false }),
-            Sub::Bytes(BytesSub { name: "soup", f: soup, max_len: 64, quick: Budget { threads: 8, cases: 8000 }, thorough: Budget { threads: 16, cases: 400_000 }, keep_unreproducible: false }),
+            Sub::Bytes(BytesSub { name: "sentences", f: sentences, max_len: 1500, quick: Budget { threads: 16, cases: 6000 }, thorough: Budget { threads: 16, cases: 80_000 }, keep_unreproducible: false }),
+            Sub::Bytes(BytesSub { name: "mutants", f: mutants, max_len: 1200, quick: Budget { threads: 16, cases: 10000 }, thorough: Budget { threads: 16, cases: 300_000 }, keep_unreproducible: false }),
+            Sub::Bytes(BytesSub { name: "soup", f: soup, max_len: 64, quick: Budget { threads: 16, cases: 12000 }, thorough: Budget { threads: 16, cases: 400_000 }, keep_unreproducible: false }),
             Sub::Bytes(BytesSub { name: "chars", f: chars, max_len: 64, quick: Budget { threads: 4, cases: 5000 }, thorough: Budget { threads: 16, cases: 200_000 }, keep_unreproducible: false }),
-            Sub::Bytes(BytesSub { name: "lexical", f: lexical, max_len: 96, quick: Budget { threads: 8, cases: 6000 }, thorough: Budget { threads: 16, cases: 300_000 }, keep_unreproducible: false }),
+            Sub::Bytes(BytesSub { name: "lexical", f: lexical, max_len: 96, quick: Budget { threads: 16, cases: 12000 }, thorough: Budget { threads: 16, cases: 300_000 }, keep_unreproducible: false }),
         ],
     }
 }
